@@ -1,20 +1,174 @@
-import PocketModel.Store.HeightCache
+import Proofs.Store.HeightCache
 /-!
 # C10 — Enabling the state cache never changes what any read returns
+
+Model: `PocketModel/Store/HeightCache.lean` (`store/rootmulti/heightcache/*`, the cache calls in
+`store/iavl/store.go`).  A history is any list of `set`/`del`/`commit`/`reopen`; a reader obtains the
+store of a saved height `h` by `lazyLoad h` (`Store.LazyLoadStore`, used by
+`rootmulti.LoadLazyVersion` and `CacheMultiStoreWithVersion`).  `read V` is the read with the cache of
+variant `V` (`asIs` = /repo today, `fixed` = after `fixes/C10-heightcache.patch`), `readNoCache` the
+same read on the same node with the cache disabled.
 -/
 namespace C10
 open HeightCache
 
-/-- two keys `b`, `d`, two commits, capacity 2: height 1 is served from the cache -/
+/-- the store a reader gets from `LazyLoadStore(h)` after the history `ops`; `cap = none`: cache off -/
+def viewAt (V : Variant) (cap : Option Nat) (ops : List Op) (h : Int) : Option Store :=
+  (Store.run V (Store.fresh cap) ops).lazyLoad h
+
+/-- two keys `b`, `d`, two commits: with capacity 2 height 1 is served from the cache -/
 def hist : List Op := [.set [0x62] [0x31], .set [0x64] [0x32], .commit, .commit]
 
-/-- the store a reader gets from `LazyLoadStore(h)` after the history `ops` -/
-def viewAt (V : Variant) (cap : Nat) (ops : List Op) (h : Int) : Option Store :=
-  (Store.run V (Store.fresh (some cap)) ops).lazyLoad h
+/-! ## The fixed code: full transparency -/
 
-/-- as is: `Get` of an absent key at a cached height is an empty non-nil slice, the tree gives nil. -/
+/-- **cache_transparent** (fixed code).  For every capacity, every history, every saved height
+(served from the cache or not) and every read — `Get`, `Has`, both through a `cachekv` wrapper,
+`Iterator`/`ReverseIterator` with arbitrary nil / empty / non-empty bounds — the store with the height
+cache returns exactly what it returns with the cache disabled. -/
+theorem cache_transparent (cap : Nat) (ops : List Op) (h : Int) (view : Store)
+    (hv : viewAt fixed (some cap) ops h = some view) (r : Read) :
+    view.read fixed r = view.readNoCache r :=
+  transparent_of_variant (V := fixed) (fun _ _ => rfl) (fun d hd st e asc => fixed_iter_eq d hd st e asc)
+    (inv_run fixed ops _ (inv_fresh fixed (some cap))) hv r
+
+/-- non-vacuity: height 1 of `hist` is served from the cache, and the reads are non-trivial -/
+example : (viewAt fixed (some 2) hist 1).map (fun v => (v.served, v.read fixed (.iter (some [0x61]) (some [0x64]) false)))
+    = some (true, .items ⟨[([0x62], [0x31])], false⟩) := by decide
+
+/-- The same on the working store (uncommitted writes pending): it is never served from the cache. -/
+theorem cache_transparent_working (V : Variant) (cap : Nat) (ops : List Op) (r : Read) :
+    (Store.run V (Store.fresh (some cap)) ops).read V r = (Store.run V (Store.fresh (some cap)) ops).readNoCache r :=
+  working_read (inv_run V ops _ (inv_fresh V (some cap))) r
+
+example : (Store.run fixed (Store.fresh (some 2)) (hist ++ [.del [0x62]])).read fixed (.iter none none true)
+    = .items ⟨[([0x64], [0x32])], false⟩ := by decide
+
+/-- Twin form: a node started with the cache enabled and a node started with it disabled, fed the same
+history, answer every read at every saved height identically (fixed code). -/
+theorem cache_transparent_twin (cap : Nat) (ops : List Op) (h : Int) (von voff : Store)
+    (hon : viewAt fixed (some cap) ops h = some von) (hoff : viewAt fixed none ops h = some voff) (r : Read) :
+    von.read fixed r = voff.read fixed r := by
+  rw [cache_transparent cap ops h von hon r]
+  obtain ⟨d1, h1, rfl⟩ := lazyLoad_eq hon
+  obtain ⟨d2, h2, rfl⟩ := lazyLoad_eq hoff
+  obtain ⟨_, _, e3⟩ := twin_tree fixed ops (Store.fresh (some cap)) (Store.fresh none) rfl rfl rfl
+  rw [e3, h2] at h1
+  injection h1 with h1
+  subst h1
+  have hc : (Store.run fixed (Store.fresh none) ops).cache = none := run_cache_none fixed ops _ rfl
+  cases r <;> simp [Store.readNoCache, Store.read, Store.get, Store.iter, hc]
+
+example : (viewAt fixed none hist 1).isSome = true := by decide
+
+/-! ## The code as it is: counterexamples -/
+
+/-- as is: `Get` of a key absent at a cached height is an empty non-nil slice; the tree gives nil. -/
 theorem get_absent_differs :
-    (viewAt asIs 2 hist 1).map (fun v => (v.served, v.read asIs (.get [0x78]), v.readNoCache (.get [0x78])))
+    (viewAt asIs (some 2) hist 1).map (fun v => (v.served, v.read asIs (.get [0x78]), v.readNoCache (.get [0x78])))
       = some (true, .val (some []), .val none) := by decide
+
+/-- as is: consequently `Has` through a `cachekv` wrapper reports an absent key as present. -/
+theorem hasw_absent_true :
+    (viewAt asIs (some 2) hist 1).map (fun v => (v.read asIs (.hasW [0x78]), v.readNoCache (.hasW [0x78])))
+      = some (.bool true, .bool false) := by decide
+
+/-- as is: `Iterator(nil, nil)` yields `len(data)` spurious empty keys before the real ones. -/
+theorem iter_spurious_empty_keys :
+    (viewAt asIs (some 2) hist 1).map (fun v => (v.read asIs (.iter none none true), v.readNoCache (.iter none none true)))
+      = some (.items ⟨[([], []), ([], []), ([0x62], [0x31]), ([0x64], [0x32])], false⟩,
+              .items ⟨[([0x62], [0x31]), ([0x64], [0x32])], false⟩) := by decide
+
+/-- as is: `Iterator("c", nil)` swaps its bounds and yields the keys *below* `c` (and the padding). -/
+theorem iter_open_end_swapped :
+    (viewAt asIs (some 2) hist 1).map (fun v => (v.read asIs (.iter (some [0x63]) none true), v.readNoCache (.iter (some [0x63]) none true)))
+      = some (.items ⟨[([], []), ([], []), ([0x62], [0x31])], false⟩, .items ⟨[([0x64], [0x32])], false⟩) := by decide
+
+/-- as is: `ReverseIterator("a", "d")` over `{b, d}` yields nothing; the tree yields `b`. -/
+theorem riter_end_key_dropped :
+    (viewAt asIs (some 2) hist 1).map (fun v => (v.read asIs (.iter (some [0x61]) (some [0x64]) false), v.readNoCache (.iter (some [0x61]) (some [0x64]) false)))
+      = some (.items ⟨[], false⟩, .items ⟨[([0x62], [0x31])], false⟩) := by decide
+
+/-- as is: `ReverseIterator(nil, "e")` runs through the padding and panics on `sortedKeys[-1]`. -/
+theorem riter_index_underflow :
+    (viewAt asIs (some 2) hist 1).map (fun v => (v.read asIs (.iter none (some [0x65]) false), v.readNoCache (.iter none (some [0x65]) false)))
+      = some (.items ⟨[([0x64], [0x32]), ([0x62], [0x31]), ([], []), ([], [])], true⟩,
+              .items ⟨[([0x64], [0x32]), ([0x62], [0x31])], false⟩) := by decide
+
+/-- as is: an empty non-nil end bound is read as "open"; the tree yields nothing. -/
+theorem iter_empty_end_unbounded :
+    (viewAt asIs (some 2) hist 1).map (fun v => (v.read asIs (.iter (some [0x63]) (some []) true), v.readNoCache (.iter (some [0x63]) (some []) true)))
+      = some (.items ⟨[([], []), ([], []), ([0x62], [0x31])], false⟩, .items ⟨[], false⟩) := by decide
+
+/-- The property is false of the code as it is. -/
+theorem cache_transparent_asis_fails :
+    ¬ ∀ (cap : Nat) (ops : List Op) (h : Int) (view : Store), viewAt asIs (some cap) ops h = some view →
+      ∀ r, view.read asIs r = view.readNoCache r := by
+  intro hall
+  cases hv : viewAt asIs (some 2) hist 1 with
+  | none =>
+    have : (viewAt asIs (some 2) hist 1).isSome = true := by decide
+    simp [hv] at this
+  | some view =>
+    have h1 := hall 2 hist 1 view hv (.get [0x78])
+    have h2 := get_absent_differs
+    rw [hv] at h2
+    simp only [Option.map_some, Option.some.injEq, Prod.mk.injEq] at h2
+    rw [h2.2.1, h2.2.2] at h1
+    cases h1
+
+/-! ## The code as it is: what *is* transparent -/
+
+/-- The reads that the as-is cache answers like the tree (at any height, served or not):
+`Has`; `Get` (also through `cachekv`, and `Has` through `cachekv`) of a key that is present at that
+height; every range read when the snapshot is empty. -/
+def TransparentAsIs (view : Store) : Read → Prop
+  | .has _ => True
+  | .get k => (view.working.get k).isSome
+  | .getW k => (view.working.get k).isSome
+  | .hasW k => (view.working.get k).isSome
+  | .iter _ _ _ => view.working = []
+  | .iterW _ _ _ => view.working = []
+
+theorem asis_iter_empty (st e : Option Bytes) (asc : Bool) : asIs.iter [] (asIs.ordered []) st e asc = treeIter [] st e asc := by
+  simp only [asIs, newIterAsIs, Data.keys, List.length_nil, List.replicate_zero, List.append_nil, List.map_nil]
+  have hf : ∀ x : Bytes, findStart [] x 0 = 0 := fun _ => rfl
+  split
+  · cases asc <;> simp [drain, validAsIs, emptyIter, treeIter]
+  · cases asc <;> simp [drain, validAsIs, treeIter, hf]
+
+/-- **cache_transparent_asis_partial**: on the code as it is, every read in `TransparentAsIs` — and
+every read at a height that is not served from the cache — returns what the cache-less store returns. -/
+theorem cache_transparent_asis_partial (cap : Nat) (ops : List Op) (h : Int) (view : Store)
+    (hv : viewAt asIs (some cap) ops h = some view) (r : Read)
+    (hr : TransparentAsIs view r ∨ view.served = false) :
+    view.read asIs r = view.readNoCache r := by
+  have hi := inv_run asIs ops _ (inv_fresh asIs (some cap))
+  have hg : ∀ k, (view.working.get k).isSome ∨ view.served = false → view.get asIs k = view.working.get k := by
+    intro k hk
+    rcases view_get_cases hi hv k with h | ⟨hs, h⟩
+    · exact h
+    · rcases hk with hk | hk
+      · rw [h]
+        cases hx : view.working.get k with
+        | none => simp [hx] at hk
+        | some v => simp [asIs, hx]
+      · rw [hk] at hs; cases hs
+  have hit : ∀ st e asc, view.working = [] ∨ view.served = false → view.iter asIs st e asc = treeIter view.working st e asc := by
+    intro st e asc hk
+    rcases view_iter_cases hi hv st e asc with h | ⟨hs, h⟩
+    · exact h
+    · rcases hk with hk | hk
+      · rw [h, hk]; exact asis_iter_empty st e asc
+      · rw [hk] at hs; cases hs
+  cases r with
+  | has k => simp [Store.read]
+  | get k => simp [Store.read]; exact hg k (by simpa [TransparentAsIs] using hr)
+  | getW k => simp [Store.read]; exact hg k (by simpa [TransparentAsIs] using hr)
+  | hasW k => simp [Store.read]; rw [hg k (by simpa [TransparentAsIs] using hr)]
+  | iter st e asc => simp [Store.read]; exact hit st e asc (by simpa [TransparentAsIs] using hr)
+  | iterW st e asc => simp [Store.read]; exact hit st e asc (by simpa [TransparentAsIs] using hr)
+
+/-- non-vacuity: a present key at a served height -/
+example : (viewAt asIs (some 2) hist 1).map (fun v => (v.served, v.read asIs (.get [0x62]))) = some (true, .val (some [0x31])) := by decide
 
 end C10
